@@ -89,6 +89,9 @@ impl Modulator for Tweener {
 			if !started {
 				return;
 			}
+			// once begun, a tween runs on audio time: it must not stall if the
+			// clock it was scheduled on pauses or disappears afterwards
+			tween.start_time = StartTime::Immediate;
 			*time += dt;
 			if *time >= tween.duration.as_secs_f64() {
 				self.value = values.1;
